@@ -5,6 +5,7 @@ import (
 	"time"
 
 	tmmath "github.com/tendermint/tendermint/libs/math"
+	tmproto "github.com/tendermint/tendermint/proto/tendermint/types"
 	"github.com/tendermint/tendermint/types"
 
 	"verif/lib"
@@ -35,5 +36,37 @@ func TestRegressTrustLevelBeyondInt64(t *testing.T) {
 		if err := vs.VerifyCommitLightTrusting("chain-A", c, f); err == nil && f.Numerator >= f.Denominator {
 			t.Fatalf("C07 violated: commit with 10 of 100 power accepted at trust level %d/%d (>= 1)", f.Numerator, f.Denominator)
 		}
+	}
+}
+
+// TestRegressRepeatedMemberCountedTwice: library-free replay of the finding C07-repeated-member-counted-per-entry. A
+// validator set decoded from the wire that lists validator A five times next to B and C (power 1 each): a commit in
+// which only A signed - in each of its slots - was accepted by VerifyCommit and VerifyCommitLight (5 of 7 "members").
+// Either the decoder refuses such a set or the verifiers count A once.
+func TestRegressRepeatedMemberCountedTwice(t *testing.T) {
+	a, b, c := types.NewValidator(lib.Key(0).PubKey(), 1), types.NewValidator(lib.Key(1).PubKey(), 1), types.NewValidator(lib.Key(2).PubKey(), 1)
+	raw := &types.ValidatorSet{Validators: []*types.Validator{a, a.Copy(), a.Copy(), a.Copy(), a.Copy(), b, c}, Proposer: a.Copy()}
+	vp, err := raw.ToProto()
+	if err != nil {
+		t.Fatalf("VERIF-INFRA: %v", err)
+	}
+	bz, _ := vp.Marshal()
+	var back tmproto.ValidatorSet
+	if err := back.Unmarshal(bz); err != nil {
+		t.Fatalf("VERIF-INFRA: %v", err)
+	}
+	vs, err := types.ValidatorSetFromProto(&back)
+	if err != nil {
+		return // refused at the door
+	}
+	id := types.BlockID{Hash: make([]byte, 32), PartSetHeader: types.PartSetHeader{Total: 1, Hash: make([]byte, 32)}}
+	id.Hash[0], id.PartSetHeader.Hash[0] = 1, 2
+	flags := []types.BlockIDFlag{0, 0, 0, 0, 0, types.BlockIDFlagAbsent, types.BlockIDFlagAbsent}
+	cm := lib.SignCommit("chain-A", 5, 0, id, vs, flags, time.Unix(1700000000, 0).UTC(), nil)
+	if err := noPanic(func() error { return vs.VerifyCommit("chain-A", id, 5, cm) }); err == nil {
+		t.Fatalf("C07 violated: VerifyCommit accepted a commit signed by ONE of three validators (listed five times in the decoded set)")
+	}
+	if err := noPanic(func() error { return vs.VerifyCommitLight("chain-A", id, 5, cm) }); err == nil {
+		t.Fatalf("C07 violated: VerifyCommitLight accepted a commit signed by ONE of three validators (listed five times in the decoded set)")
 	}
 }
